@@ -81,8 +81,11 @@ class UnitResult:
 def checks_flags(u):
     flags = ['--bounds-check', '--pointer-check', '--div-by-zero-check', '--signed-overflow-check',
              '--undefined-shift-check', '--pointer-primitive-check', '--no-malloc-may-fail',
-             '--pointer-overflow-check']
+             '--pointer-overflow-check', '--sat-solver', 'cadical']
     extra = u.get('cbmc', '').split()
+    if '--minisat' in extra:           # a unit may ask for the default MiniSat back end
+        extra.remove('--minisat')
+        flags = [f for f in flags if f not in ('--sat-solver', 'cadical')]
     if '--no-pointer-overflow-check' in extra:
         extra.remove('--no-pointer-overflow-check')
         flags.remove('--pointer-overflow-check')
@@ -166,8 +169,10 @@ def run_unit(path, scratch, mutate=None, extra_name=''):
     base = ['cbmc', binary, '--json-ui'] + checks_flags(u)
     # list the properties first: the REACH guards (which must fail) and the advisory pointer-arithmetic checks are run
     # apart from the obligations, so that their failures do not leave obligations UNKNOWN and both runs go in parallel
-    rcp, outp, errp, dtp = _run(base + ['--show-properties'], timeout, workdir, res.cmds)
     plist = []
+    outp = '[]'
+    if u.get('pipeline', 'dfcc') != 'plain':     # loop-free plain harnesses are decided in one run
+        rcp, outp, errp, dtp = _run(base + ['--show-properties'], timeout, workdir, res.cmds)
     try:
         for item in json.loads(outp):
             if 'properties' in item:
@@ -187,7 +192,7 @@ def run_unit(path, scratch, mutate=None, extra_name=''):
                 cmd_ += ['--property', n_]
             rc_, out_, err_, dt_ = _run(cmd_, timeout, workdir, res.cmds)
             if 'too many addressed objects' in out_ and (ob or 8) < 12:
-                ob = (ob or 8) + 2      # default is 8; raise only when CBMC asks for it (cost grows with it)
+                ob = (ob or 8) + 1      # default is 8; raise only when CBMC asks for it (cost grows steeply with it)
                 continue
             return rc_, out_, err_, dt_, ob, cmd_
     if plist and side and main:
